@@ -146,7 +146,11 @@ def child_main(a):
     out["wall_s"] = time.time() - t0
     with open(a.out, "w") as f:
         json.dump(out, f)
-    return 0
+        f.flush()
+        os.fsync(f.fileno())
+    sys.stdout.flush()
+    sys.stderr.flush()
+    os._exit(0)        # skip atexit handlers: a leaked worker pool in the code under test must not be able to hang the child
 
 
 def _hyp_settings(sc, a, n):
